@@ -650,7 +650,7 @@ func (P *Prog) checkPredicateToIssue(r *Result, rule string) {
 			}
 			underNot, underPlain := false, false
 			for _, gd := range guardsOf(b) {
-				if _, f := loadOfField(cv(gd.If.Cond)); f != nil && f.Name() == "isNot" {
+				if _, f := loadOfField(cv(gd.If.Cond)); f != nil && P.roleName(f) == "isNot" {
 					if gd.True {
 						underNot = true
 					} else {
